@@ -413,7 +413,7 @@ func TestTransport(t *testing.T) {
 			for _, idxs := range perKind {
 				pick := map[int]bool{idxs[0]: true, idxs[len(idxs)-1]: true}
 				for i := 0; len(pick) < maxPerKind && len(pick) < len(idxs); i++ {
-					pick[idxs[(int(seed)*7+i*5)%len(idxs)]] = true
+					pick[idxs[(int(seed)*7+i)%len(idxs)]] = true // consecutive from a seeded start: terminates
 				}
 				for fi := range cf.Fields {
 					if !pick[fi] {
